@@ -11,6 +11,7 @@ All theorems are for matrices of any size over ℚ.
 import SkNet.Lemmas.LinOpExpr
 import SkNet.Lemmas.Convert
 import SkNet.Lemmas.ConvertCsr
+import SkNet.Lemmas.LinOpType
 
 namespace SkNet.C15
 open SkNet SkNet.LinOp SkNet.Convert
@@ -109,6 +110,33 @@ theorem normalizer_negative_regularization_differs :
     ((OpExpr.normalizer ⟨1, 2, [[2, 2]]⟩ (-2)).eval.toOption.bind fun o => (o.dot [1, 0]).toOption) = some [1]
       ∧ (OpExpr.normalizer ⟨1, 2, [[2, 2]]⟩ (-2)).denote.mulVec [1, 0] = [1/2] := by
   decide +kernel
+
+/-! ## which expressions evaluate, which are refused -/
+
+/-- **Static typing is exact.** `OpExpr.type?` computes, from the classes and shapes alone (plus `check_format`'s
+emptiness test and the lengths of the low-rank vectors), the class and shape of the value of an expression or the
+exception Python raises (`ValueError` for a shape mismatch, `AttributeError` for `SparseLR + <other operator>` or a
+missing method, `TypeError` for a format conversion of a non-SparseLR operator). The evaluation of the model agrees
+with it on every expression: it never refuses a well-typed expression and never accepts an ill-typed one. -/
+theorem eval_type_exact (e : OpExpr) : e.eval.map Op.ty = e.type? := OpExpr.eval_type e
+
+theorem eval_ok_iff (e : OpExpr) : (∃ o, e.eval = .ok o) ↔ (∃ t, e.type? = .ok t) := by
+  rw [← eval_type_exact]
+  constructor
+  · rintro ⟨o, h⟩; exact ⟨o.ty, by rw [h]; rfl⟩
+  · rintro ⟨t, h⟩
+    cases he : e.eval with
+    | error err => rw [he] at h; cases h
+    | ok o => exact ⟨o, rfl⟩
+
+/-- every operator obtained by evaluating an expression is well formed (valid low-rank tuples, square Laplacian,
+composable CoNeighbor factors, square non-empty Polynome matrix), whatever the regularisations -/
+theorem eval_well_formed (e : OpExpr) (o : Op) (h : e.eval = .ok o) : o.WF := OpExpr.eval_wf e o h
+
+example : exampleExpr.type? = .ok ⟨.slr, 3, 2⟩ := by decide
+example : (OpExpr.add (.slr ⟨1, 1, [[1]]⟩ []) (.normalizer ⟨1, 1, [[1]]⟩ 0)).type? = .error .attributeError := by decide
+example : (OpExpr.leftDot ⟨2, 3, [[1, 0, 0], [0, 1, 0]]⟩ (.slr ⟨2, 2, [[1, 0], [0, 1]]⟩ [])).type? = .error .valueError := by
+  decide
 
 /-! ## ★ the operator classes one by one -/
 
